@@ -1,5 +1,6 @@
 #![allow(dead_code)]
 mod engine;
+mod gen;
 mod instr;
 mod problems;
 mod props;
@@ -84,6 +85,7 @@ fn main() {
     let ctx = Ctx { tier, seed, verif_dir: verif_dir.clone(), shards, scale };
     let known = load_known(&verif_dir);
     let code = dispatch!(id.as_str(), &ctx, &known, replay.as_deref(),
+        "C03" => c03,
         "C16" => c16,
         "C17" => c17
     );
